@@ -5,6 +5,7 @@ pub mod c02;
 pub mod c03;
 pub mod c04;
 pub mod c05;
+pub mod c08;
 pub mod c09;
 pub mod c18;
 pub mod c19;
@@ -23,6 +24,7 @@ pub fn registry() -> Vec<Check> {
         Check { id: "C03", level: "exploration", run: c03::run, replay: c03::replay },
         Check { id: "C04", level: "exploration", run: c04::run, replay: c04::replay },
         Check { id: "C05", level: "exploration", run: c05::run, replay: c05::replay },
+        Check { id: "C08", level: "exploration", run: c08::run, replay: c08::replay },
         Check { id: "C09", level: "exploration", run: c09::run, replay: c09::replay },
         Check { id: "C18", level: "exploration", run: c18::run, replay: c18::replay },
         Check { id: "C19", level: "exploration", run: c19::run, replay: c19::replay },
